@@ -267,8 +267,132 @@ static Result run_case(const Case &c) {
   });
 }
 
+// ---------------------------------------------------------------- blocks above 4 GiB (64-bit restart arrays)
+// block_builder -> block_init / block_iter round trip through the library's internal (non-static) block API.
+extern "C" {
+struct block;
+struct block_builder;
+struct block_iter;
+struct block *block_init(uint8_t *data, size_t size, bool needs_free);
+void block_destroy(struct block **);
+struct block_iter *block_iter_init(struct block *);
+void block_iter_destroy(struct block_iter **);
+void block_iter_seek_to_first(struct block_iter *);
+void block_iter_seek(struct block_iter *, const uint8_t *key, size_t key_len);
+bool block_iter_next(struct block_iter *);
+bool block_iter_get(struct block_iter *, const uint8_t **key, size_t *key_len, const uint8_t **val, size_t *val_len);
+struct block_builder *block_builder_init(size_t block_restart_interval);
+void block_builder_destroy(struct block_builder **);
+void block_builder_finish(struct block_builder *, uint8_t **buf, size_t *bufsz);
+void block_builder_add(struct block_builder *, const uint8_t *key, size_t len_key, const uint8_t *val, size_t len_val);
+}
+static int big_block_mode(const WorkerOpts &o, Stats &stats) {
+  if (o.worker != 0) return 0;
+  long shapes = o.geti("shapes", 1);
+  for (long sh = 0; sh < shapes; sh++) {
+    uint32_t sd = (uint32_t)(o.seed % 1000) * 7 + (uint32_t)sh * 13 + 1;
+    int restart = (int)(1 + lcg(sd) % 5);            // 1..5
+    size_t vlen = (40u << 20) + (lcg(sd) % (16u << 20));  // 40..56 MiB per value
+    int n = (int)(((4ull << 30) + (300ull << 20)) / vlen) + 2;  // total a little above 4 GiB
+    int small_every = (int)(2 + lcg(sd) % 4);          // interleave small entries so restart offsets land everywhere
+    std::string desc = "big block: n=" + std::to_string(n) + " vlen=" + std::to_string(vlen) + " restart=" + std::to_string(restart) + " small_every=" + std::to_string(small_every);
+    long saved_rss = g_rss_limit_mb;
+    g_rss_limit_mb = 24000;
+    Result r = run_isolated([&](Result &rr) {
+      struct block_builder *bb = block_builder_init((size_t)restart);
+      std::vector<std::pair<bytes, size_t>> model;  // key, value length (value = fill byte derived from index)
+      uint8_t *val = (uint8_t *)malloc(vlen);
+      int idx = 0;
+      uint64_t data_bytes = 0;
+      for (int i = 0; i < n; i++) {
+        for (int rep = 0; rep < 2; rep++) {
+          bool small = rep == 1;
+          if (small && (i % small_every)) continue;
+          char k[48];
+          snprintf(k, sizeof k, "bigblock/%06d/%s", i, small ? "s" : "L");
+          size_t vl = small ? (size_t)(i % 200) : vlen;
+          memset(val, 0x30 + (idx % 50), vl);
+          if (vl > 8) {
+            memcpy(val, &idx, sizeof idx);
+            memcpy(val + vl - 4, &idx, sizeof idx);
+          }
+          // keys are inserted in ascending order: ".../L" < ".../s"
+          block_builder_add(bb, (const uint8_t *)k, strlen(k), val, vl);
+          model.emplace_back(bytes(k), vl);
+          idx++;
+        }
+      }
+      free(val);
+      uint8_t *buf = nullptr;
+      size_t sz = 0;
+      block_builder_finish(bb, &buf, &sz);
+      block_builder_destroy(&bb);
+      (void)data_bytes;
+      if (sz <= 0xFFFFFFFFull) {
+        rr.failf("HARNESS: block is only %zu bytes, not above 4 GiB", sz);
+        free(buf);
+        return;
+      }
+      // the restart array must be 64-bit: num_restarts entries of 8 bytes + 4
+      uint32_t nr = ref::get_le32(buf + sz - 4);
+      size_t want_restarts = (model.size() + (size_t)restart - 1) / (size_t)restart;
+      if (nr != want_restarts) rr.failf("num_restarts = %u for %zu entries at interval %d (expected %zu)", nr, model.size(), restart, want_restarts);
+      uint64_t ra = sz - 4 - 8ull * nr;
+      if (!rr.fail && ra <= 0xFFFFFFFFull) rr.failf("restart array of a > 4 GiB block does not start above 2^32 (offset %llu)", (unsigned long long)ra);
+      if (!rr.fail && ref::get_le64(buf + ra) != 0) rr.failf("first 64-bit restart offset is not 0");
+      struct block *b = block_init(buf, sz, false);
+      struct block_iter *bi = block_iter_init(b);
+      block_iter_seek_to_first(bi);
+      size_t i = 0;
+      const uint8_t *k, *v;
+      size_t lk, lv;
+      while (!rr.fail && block_iter_get(bi, &k, &lk, &v, &lv)) {
+        if (i >= model.size()) {
+          rr.failf("iteration returned more than the %zu entries added", model.size());
+          break;
+        }
+        int tag = 0;
+        if (bytes((const char *)k, lk) != model[i].first || lv != model[i].second) rr.failf("entry %zu: key/value length differ from what was added", i);
+        else if (lv > 8 && (memcpy(&tag, v, 4), tag != (int)i)) rr.failf("entry %zu: value head differs", i);
+        else if (lv > 8 && (memcpy(&tag, v + lv - 4, 4), tag != (int)i)) rr.failf("entry %zu: value tail differs", i);
+        i++;
+        if (!block_iter_next(bi)) break;
+      }
+      if (!rr.fail && i != model.size()) rr.failf("iteration returned %zu of %zu entries", i, model.size());
+      // seeks: every key (exact) forwards and a few backwards, successor keys, beyond-last
+      for (size_t j = 0; j < model.size() && !rr.fail; j += 3) {
+        size_t t = (j * 7) % model.size();
+        block_iter_seek(bi, U(model[t].first), model[t].first.size());
+        if (!block_iter_get(bi, &k, &lk, &v, &lv) || bytes((const char *)k, lk) != model[t].first) rr.failf("seek to stored key #%zu did not land on it", t);
+        bytes succ = model[t].first + bytes(1, '\0');
+        block_iter_seek(bi, U(succ), succ.size());
+        bool got = block_iter_get(bi, &k, &lk, &v, &lv);
+        if (t + 1 < model.size()) {
+          if (!got || bytes((const char *)k, lk) != model[t + 1].first) rr.failf("seek just after key #%zu did not land on its successor", t);
+        } else if (got) rr.failf("seek beyond the last key returned an entry");
+      }
+      block_iter_destroy(&bi);
+      block_destroy(&b);
+      free(buf);
+      rr.nontrivial = true;
+      rr.tag("block_gt_4GiB_64bit_restart_array");
+      rr.counters["big_block_entries"] = (long long)model.size();
+      rr.counters["big_block_bytes"] = (long long)sz;
+    }, 1500);
+    g_rss_limit_mb = saved_rss;
+    stats.add("property C11\n# " + desc + "\n", r);
+    if (r.fail) {
+      write_file(o.outdir + "/fail.case", "property C11\n# " + desc + " (re-run: ./vf C11 --tier thorough)\n");
+      write_file(o.outdir + "/fail.msg", r.msg);
+      return 1;
+    }
+  }
+  return 0;
+}
+
 // checked-in sample files: the library reader and the independent decoder must agree (triangulates the decoder)
 static int extra_modes(const WorkerOpts &o, Stats &stats) {
+  if (o.mode == "big4g") return big_block_mode(o, stats);
   if (o.mode != "samples") return 2;
   if (o.worker != 0) return 0;
   const char *repo = getenv("VERIF_REPO");
